@@ -213,19 +213,23 @@ def run_sign(chk):
                             "verify_other_lib": e["verify_other_lib"], "indep": e.get("indep")}, cap=8)
                 break
     q = chk.quick
-    plan = [("dkls", plain, False, "sign:dkls23", 4 if q else 10),
-            ("l17", test, True, "sign:lindell17", 2 if q else 5),
-            ("l22", plain, False, "sign:lindell22", 2 if q else 3),
-            ("bls", plain, False, "sign:bls", 3 if q else 4),
+    plan = [("dkls", plain, False, "sign:dkls23", 4 if q else 12),
+            ("l17", test, True, "sign:lindell17", 2 if q else 6),
+            ("l22", plain, False, "sign:lindell22", 3 if q else 3),
+            ("bls", plain, False, "sign:bls", 5 if q else 8),
             ("cggmp", test, True, "sign:cggmp21", 2 if q else 6)]
     tasks = []
+    big = [] if q else SA_THOROUGH[-4:]            # the four multi-million-state configurations start first, the small ones fill the tail
+    mc_first, mc_last = [], []
     for cfg in (SA_QUICK if q else SA_THOROUGH):
-        tasks.append(("mc:" + cfg, (lambda cfg=cfg: vlib.tlc(SPEC, "SignAlgebraMC", cfg, workers=2 if q else 3, timeout=3400, deadlock=True,
+        (mc_first if cfg in big else mc_last).append(("mc:" + cfg, (lambda cfg=cfg: vlib.tlc(SPEC, "SignAlgebraMC", cfg, workers=2 if q else 3, timeout=3400, deadlock=True,
                                                              rundir=vlib.scratch(chk.prop, "mc-" + cfg.replace(".cfg", ""))))))
+    tasks += mc_first
     for tag, binary, tm, only, parts in plan:
         for i in range(parts):
             args = ["-mode", "sign", "-only", only, "-parts", str(parts), "-part", str(i), "-cache", CACHE]
             tasks.append(("rv:%s-%d" % (tag, i), _job(chk, "%s-%d" % (tag, i), binary, tm, args, stats, on_rows, 400, 3400)))
+    tasks += mc_last
     res = vlib.parallel(tasks, max_workers=14)
     for name, r in res.items():
         if name.startswith("mc:"):
@@ -290,3 +294,40 @@ def run_otvole(chk):
         "OT outputs are compared as tokens by ProdTrace, c + d = a * b is evaluated with math/big modulo the group order; rvole/bbot and ecbbot "
         "on production curves run inside DKLs23 signing (C01 part)"]
     return res
+
+
+# ------------------------------------------------------------------------------------------------------------------- replay
+
+def replay(case, seed=None, tier="quick"):
+    """Reproduce a rejected line on the real code: re-run the slice of the matrix it belongs to (same mode, protocol and variant; the
+    seed of VERIF_SEED, default 1) and print every line ProdTrace rejects.  `case` is the row stored in the replay file.
+    Returns the number of rejected lines.  Usable from C01 / C03 / C09 replay():  if case.get("a") in ("sign", "keygen", "ot", "vole")."""
+    seed = int(seed if seed is not None else os.environ.get("VERIF_SEED", "1"))
+    a = case.get("a")
+    testmode = False
+    if a == "sign":
+        only = "sign:%s" % case["proto"]
+        if case["proto"] in ("lindell22", "bls"):
+            only += ":" + case["variant"]
+        testmode = case["proto"] in ("lindell17", "cggmp21")
+        args = ["-mode", "sign", "-only", only, "-cache", CACHE]
+    elif a == "keygen":
+        args = ["-mode", "keygen", "-only", "%s:%s" % (case["proto"], case["group"] if case["proto"] != "dealer" else "")]
+    else:
+        args = ["-mode", "otvole"]
+    binary = vlib.build("prod", testmode=True) if testmode else vlib.build("prodproto")
+    chk = vlib.Check("replay_prod", tier, seed)
+    rd = vlib.scratch(chk.prop, "drv")
+    out = os.path.join(rd, "trace.ndjson")
+    vlib.run_driver(binary, args + ["-out", out, "-seed", str(seed), "-tier", tier], testmode=testmode, timeout=3400)
+    rows = vlib.read_ndjson(out)
+    vlib.validate_chunks(chk, "ptrace", SPEC, "ProdTrace", "ProdTrace.cfg", rows[1:], header=rows[0], chunk=400, key_of=lambda r: r.get("k"), max_workers=3)
+    want = key_of(case)
+    hits = 0
+    for key, text, path in chk.violations:
+        row = [r for r in rows[1:] if r.get("k") == key]
+        same = bool(row) and key_of(row[0]) == want
+        hits += 1 if same else 0
+        vlib.log("%s %s" % ("REPRODUCED" if same else "also rejected", key))
+    vlib.log("replay: %d lines run, %d rejected, %d with the key of the stored case (%s)" % (len(rows) - 1, len(chk.violations), hits, want))
+    return len(chk.violations)
